@@ -14,6 +14,7 @@ const envsPkg = "app/modules/commonm/commservices/envs"
 func init() {
 	register(&PropDef{ID: "C18", Title: "Environment values reach sandbox shells verbatim, with no shell interpretation", Rules: rulesC18,
 		Explanation: "Decided (structural necessary conditions, both script builders — dcmd.InitSequence and sshsb.(*SSHSandbox).initSequence): R1 the string that carries an environment value is rebuilt from the SSA concatenation as a template of constant pieces and symbolic holes (KEY, TAG, VALUE) and lexed as shell: VALUE must be the whole body of a here-document whose delimiter word is quoted (so the shell performs no expansion in the body), whose delimiter contains TAG, which starts right after the delimiter line and is closed by a line consisting of the same delimiter; VALUE may not appear anywhere else (e.g. inside a format string); R2 TAG derives from varutil.RandString with a constant length >= 8 evaluated inside the builder on every call (not a package-level or cached value), and the opening and closing delimiter are the same value; R3 every store into the environment map is dominated by a nil result of the key validator for that key (Set) or for the whole map being copied (SetAll), the validator errors exactly when the pattern does not match, and the pattern — parsed from the source constant with regexp/syntax — is anchored at both ends with a language included in [A-Za-z_][A-Za-z0-9_]*. " +
+			"R2 also: varutil.RandString does not create or seed its generator on every call (no rand.NewSource/Seed/New inside it): a per-call clock seed makes the terminator predictable. " +
 			"NOT decided: what /bin/sh does with the script beyond the POSIX rule used in R1 (a quoted delimiter disables expansion); values containing a line equal to the random delimiter (probabilistic argument, R2).",
 	})
 }
@@ -92,6 +93,38 @@ func rulesC18(c *Ctx) {
 	}
 	c.Floor("R1", nb, 2)
 	ruleEnvNames(c)
+	ruleRandSource(c)
+}
+
+// ruleRandSource (R2): the generator behind the terminator is not re-seeded on
+// every call.  A source created per call from the clock makes the terminator a
+// function of the time of the call: two scripts generated in the same tick share
+// it, and a value that embeds the terminator of a script seen a moment earlier
+// closes the quoted here-document early.
+func ruleRandSource(c *Ctx) {
+	rs := c.P.Func("varutil", "", "RandString")
+	if rs == nil {
+		c.Bad("R2", "varutil.RandString", 0, "anchor not found")
+		return
+	}
+	bad := ""
+	var pos token.Pos = rs.Pos()
+	fns := append([]*ssa.Function{rs}, reachableSamePkg(rs, 2)...)
+	for _, f := range fns {
+		for _, g := range withClosures(f) {
+			for _, ci := range Calls(g) {
+				if ci.Static == nil {
+					continue
+				}
+				switch qualName(ci.Static) {
+				case "math/rand.NewSource", "math/rand.Seed", "math/rand.New", "math/rand/v2.NewPCG", "math/rand/v2.New":
+					bad, pos = lastSeg(qualName(ci.Static))+" is called inside "+fname(g)+" on every call", ci.Pos()
+				}
+			}
+		}
+	}
+	c.Check(bad == "", "R2", "the terminator's generator is not re-seeded per call", pos, "RandString draws from a source that outlives the call",
+		bad+" — the terminator becomes a function of the clock value used as seed; scripts generated within the same tick share it and a value can embed it")
 }
 
 // scriptTemplates: every piece of script text built in f that contains a hole
